@@ -1,5 +1,7 @@
 import MdkVerif.Model.Client
 import MdkVerif.Proofs.Client
+import MdkVerif.Proofs.RestartSim
+import MdkVerif.Generated
 /-
   C11 — Restarting on persistent storage is invisible.
   In the model a restart drops the in-memory snapshot manager and re-hydrates it from the stored
@@ -53,5 +55,263 @@ theorem restart_invisible_full_false : ¬ restart_invisible_full := by
 theorem restart_invisible_when_not_better (c : Cl) (hp : c.persistent = true) (ee : Nat) (e : Ev)
     (h : isBetter c ee e = false) : isBetter (restart c).1 ee e = isBetter c ee e := by
   rw [restart_disables_comparison c hp, h]
+
+/-! ## histories: any operation sequence, restarts inserted anywhere (Proofs/RestartSim.lean)
+
+  `run c ops` = final client and the results of all calls of `ops` but the restarts; `strip ops` = `ops` without
+  its restarts.  `Sim c c'`: `c'` equals `c` except that timestamps of the snapshot manager may be 0. -/
+
+open MdkVerif.Props.C08 (COp)
+
+/-- **monotonicity** of the MIP-03 comparison in the manager's timestamps: zeroing them can only turn "better"
+    into "not better" -/
+theorem isBetter_monotone (c c' : Cl) (h : Sim c c') (ee : Nat) (e : Ev) :
+    isBetter c' ee e = true → isBetter c ee e = true := isBetter_mono c c' h.mgr ee e
+
+/-- one delivery on related clients: same result, related clients — provided a candidate that wins in the
+    restart-free run (`winsAt`: the delivery gets as far as the comparison of `ProcessMessageWrongEpoch` and is judged
+    better) wins in the restarted run too.  No other branch of `process_message` needs anything. -/
+theorem deliver_simulation (c c' : Cl) (h : Sim c c') (e : Ev) (nx : Nat)
+    (hb : winsAt c e = true → isBetter c' (epochOf e.path) e = true) :
+    Sim (deliver c e nx).1 (deliver c' e nx).1 ∧ (deliver c' e nx).2 = (deliver c e nx).2 := sim_deliver h e nx hb
+
+/-- the one-step statement that was open: a delivery right after a restart answers and ends as without the restart,
+    for EVERY client and event, unless the uninterrupted client would roll back for it (`restart_invisible_full` minus
+    exactly the witness' situation) -/
+theorem restart_invisible_step (c : Cl) (e : Ev) (nx : Nat) (h : winsAt c e = false) :
+    (deliver (restart c).1 e nx).2 = (deliver c e nx).2 ∧ proj (deliver (restart c).1 e nx).1 = proj (deliver c e nx).1 := by
+  have := sim_deliver (sim_restart_right (Sim.refl c)) e nx (by intro hw; rw [h] at hw; cases hw)
+  exact ⟨this.2, this.1.proj⟩
+
+example : winsAt (deliver by0p cA 0).1 cB = true := by decide     -- the witness is excluded by the hypothesis …
+example : winsAt (deliver by0p cA 0).1 cA = false := by decide    -- … a re-delivery or a worse competitor is not
+
+/-- every client operation is a simulation; only a delivery that is a stale win is excluded -/
+theorem op_simulation (c c' : Cl) (h : Sim c c') (o : COp) (hs : staleWin c c' o = false) :
+    Sim (rstep c o).1 (rstep c' o).1 ∧ (rstep c' o).2 = (rstep c o).2 := sim_rstep h o hs
+
+/-- every operation that is not a delivery: no hypothesis at all -/
+theorem local_op_simulation (c c' : Cl) (h : Sim c c') (o : COp) (hd : ∀ e nx, o ≠ .deliver e nx) :
+    Sim (rstep c o).1 (rstep c' o).1 ∧ (rstep c' o).2 = (rstep c o).2 := by
+  refine sim_rstep h o ?_
+  cases o with
+  | deliver e nx => exact absurd rfl (hd e nx)
+  | _ => rfl
+
+/-- a restart of one side keeps the clients related (it is invisible until a comparison looks at a timestamp) -/
+theorem restart_keeps_sim (c c' : Cl) (h : Sim c c') : Sim c (restart c').1 := sim_restart_right h
+
+/-- a restart hydrates every snapshot of a persistent client … -/
+theorem restart_hydrates_all (c : Cl) (hp : c.persistent = true) (ep : Nat)
+    (h : (c.mgr.find? (·.epoch == ep)).isSome = true) : hydratedAt (restart c).1 ep = true := by
+  unfold restart hydratedAt
+  simp only [hp, if_true]
+  cases hf : (c.mgr.map (fun s => { s with ts := 0 })).find? (·.epoch == ep) with
+  | none =>
+    rw [List.find?_map] at hf
+    simp only [Option.map_eq_none_iff] at hf
+    have : (c.mgr.find? (·.epoch == ep)) = none := hf
+    rw [this] at h; cases h
+  | some s =>
+    have := List.mem_of_find?_eq_some hf
+    simp only [List.mem_map] at this
+    obtain ⟨t, _, rfl⟩ := this
+    simp
+
+/-- … and a snapshot taken afterwards carries its timestamp in both runs: the entry `process_commit` appends is
+    the same on related clients -/
+theorem new_snapshot_same (c c' : Cl) (h : Sim c c') (ep : Nat) (e : Ev) (hr : 1 ≤ c.retention) :
+    (mgrCreate c' ep e).mgr.getLast? = (mgrCreate c ep e).mgr.getLast? := by
+  have hg := h.g
+  have hret := h.retention
+  have hl := h.mgr.length_eq
+  unfold mgrCreate
+  simp only [hg, hret, List.length_append, List.length_cons, List.length_nil, hl]
+  rw [List.getLast?_drop, List.getLast?_drop]
+  simp only [List.length_append, List.length_cons, List.length_nil, hl]
+  have : ¬ (c.mgr.length + (0 + 1) ≤ c.mgr.length + (0 + 1) - c.retention) := by omega
+  simp [this]
+
+/-- no delivery of the restart-free run rolls back for a better competitor -/
+def QuietRun (c : Cl) (ops : List COp) : Prop := quietRun c (strip ops) = true
+
+instance (c : Cl) (ops : List COp) : Decidable (QuietRun c ops) := by unfold QuietRun; infer_instance
+
+/-- **restart_invisible_partial**: ANY client, ANY list of operations with restarts inserted ANYWHERE: if no
+    delivery of the restart-free run is judged better against a snapshot, every call answers the same in both runs
+    and the runs end in the same observable state — the projection, the dedup records, the stored messages, the
+    whole group state, and the snapshots (epochs, commits, saved states; their timestamps excepted) -/
+theorem restart_invisible_partial (c : Cl) (ops : List COp) (hq : QuietRun c ops) :
+    (run c ops).2 = (run c (strip ops)).2 ∧ proj (run c ops).1 = proj (run c (strip ops)).1 ∧
+    (run c ops).1.recs = (run c (strip ops)).1.recs ∧ (run c ops).1.g = (run c (strip ops)).1.g ∧
+    (run c ops).1.mgr.map (fun s => (s.epoch, s.commit, s.saved)) = (run c (strip ops)).1.mgr.map (fun s => (s.epoch, s.commit, s.saved)) := by
+  obtain ⟨h1, h2⟩ := run_sim ops (Sim.refl c) (noStaleWin_of_quiet ops c c hq)
+  exact ⟨h2, h1.proj, h1.recs, h1.g, h1.mgr.map_eq⟩
+
+/-- **the sharper version**: rollbacks are allowed as long as the snapshot rolled back to is not hydrated in the
+    restarted run, i.e. was taken after the last restart before the delivery (`new_snapshot_same`,
+    `restart_hydrates_all`); calls before the first restart are never in the way (`noStaleWin_prefix`) -/
+theorem restart_invisible_sharp (c : Cl) (ops : List COp) (hq : noStaleWin c c ops = true) :
+    (run c ops).2 = (run c (strip ops)).2 ∧ proj (run c ops).1 = proj (run c (strip ops)).1 ∧
+    (run c ops).1.recs = (run c (strip ops)).1.recs ∧ (run c ops).1.g = (run c (strip ops)).1.g ∧
+    (run c ops).1.mgr.map (fun s => (s.epoch, s.commit, s.saved)) = (run c (strip ops)).1.mgr.map (fun s => (s.epoch, s.commit, s.saved)) := by
+  obtain ⟨h1, h2⟩ := run_sim ops (Sim.refl c) hq
+  exact ⟨h2, h1.proj, h1.recs, h1.g, h1.mgr.map_eq⟩
+
+/-- whatever happened before the first restart (races, rollbacks): if the rest of the restart-free run is quiet, the
+    restarts are invisible -/
+theorem restart_invisible_after_first_restart (c : Cl) (pre post : List COp) (hpre : ∀ o ∈ pre, isRestart o = false)
+    (hq : QuietRun (run c pre).1 post) :
+    (run c (pre ++ post)).2 = (run c (strip (pre ++ post))).2 ∧
+    proj (run c (pre ++ post)).1 = proj (run c (strip (pre ++ post))).1 := by
+  have := restart_invisible_sharp c (pre ++ post)
+    (by rw [noStaleWin_prefix pre post c hpre]; exact noStaleWin_of_quiet post _ _ hq)
+  exact ⟨this.1, this.2.1⟩
+
+/-- the runs of the theorems are the histories of `C08.sync_inv` / `C01.reachable_hinv` (`C08.cstep` folded) -/
+theorem run_is_history (c : Cl) (ops : List COp) : (run c ops).1 = ops.foldl MdkVerif.Props.C08.cstep c := run_fst c ops
+
+/-- the statement of the property over histories, without a hypothesis -/
+def restart_invisible_history_full : Prop :=
+  ∀ (c : Cl) (ops : List COp),
+    (run c ops).2 = (run c (strip ops)).2 ∧ proj (run c ops).1 = proj (run c (strip ops)).1
+
+/-- refuted by the same witness (`hydrated-timestamp-zero`): apply A, restart, the better B is refused -/
+theorem restart_invisible_history_full_false : ¬ restart_invisible_history_full := by
+  intro h
+  have := (h by0p [.deliver cA 0, .restart, .deliver cB 0]).1
+  revert this; decide
+
+/-! ### the hypotheses are satisfiable by non-trivial runs -/
+
+/-- a worse competitor of A (later timestamp) -/
+def cW : Ev := { n := 3, ts := 25, idnum := 3, cipher := 3, sender := 0, path := [], kind := .commit .selfUpdate [] }
+/-- a message of member 1 in the epoch after A -/
+def mA : Ev := { n := 4, ts := 30, idnum := 4, cipher := 4, sender := 1, path := [1], kind := .app 40 30 7 }
+
+/-- quiet run with restarts at three places: A is applied, the worse W reaches the comparison and loses (in both
+    runs), a message arrives, the client sends; the comparison IS evaluated, so the hypothesis is not vacuous -/
+def quietOps : List COp :=
+  [.restart, .deliver cA 0, .restart, .deliver cW 0, .deliver mA 0, .restart, .send 5 31 5 50 31 8, .deliver cW 0]
+
+example : QuietRun by0p quietOps := by decide
+example : (run by0p quietOps).2 = [.commit, .unprocessable, .app 40,
+    .ev { n := 5, ts := 31, idnum := 5, cipher := 5, sender := 2, path := [1], kind := .app 50 31 8 }, .unprocessable] := by decide
+example : (run by0p quietOps).2 = (run by0p (strip quietOps)).2 := (restart_invisible_partial by0p quietOps (by decide)).1
+
+/-- C: a commit on the state after B; D: its better competitor -/
+def cC : Ev := { n := 6, ts := 40, idnum := 6, cipher := 6, sender := 1, path := [2], kind := .commit .selfUpdate [] }
+def cD : Ev := { n := 7, ts := 39, idnum := 8, cipher := 7, sender := 0, path := [2], kind := .commit .selfUpdate [] }
+
+/-- a rollback BEFORE the restart (A applied, the better B wins), the restart, then a FRESH race after it (C applied,
+    the better D wins against a snapshot taken after the restart): not quiet, but no stale win -/
+def raceOps : List COp := [.deliver cA 0, .deliver cB 0, .restart, .deliver cC 0, .deliver cD 0]
+
+example : noStaleWin by0p by0p raceOps = true := by decide
+example : ¬ QuietRun by0p raceOps := by decide
+example : (run by0p raceOps).2 = [.commit, .commit, .commit, .commit] ∧ (run by0p raceOps).1.g.path = [2, 7] := by decide
+example : (run by0p raceOps).2 = (run by0p (strip raceOps)).2 := (restart_invisible_sharp by0p raceOps (by decide)).1
+/-- … and the witness of the finding is exactly a stale win -/
+example : noStaleWin by0p by0p [.deliver cA 0, .restart, .deliver cB 0] = false := by decide
+
+/-! ## tie to the source: what an `MDK` instance keeps in memory, and what hydration brings back
+
+  The facts are re-extracted from /repo on every run (`tools/gen_model.py` → `Generated.lean`); the theorems below
+  are closed `decide`s over them, so a new field of `MDK`, a new lock / cell / static anywhere in the shipped code of
+  mdk-core, mdk-storage-traits or mdk-sqlite-storage, or a change of what hydration rebuilds breaks an obligation. -/
+
+/-- what a field of `MDK` is for a restart -/
+inductive FieldRole where
+  | constant       -- fixed by the code or handed in again by the application when it reopens (configuration)
+  | database       -- the handle on the database (what "persistent" means) and the stateless crypto provider
+  | callback       -- the application's callback object, handed in again on reopen; no library state
+  | volatileState  -- library state that lives in memory only
+  deriving DecidableEq, Repr
+
+def mdkFieldRole : String → Option FieldRole
+  | "ciphersuite" => some .constant
+  | "extensions" => some .constant
+  | "config" => some .constant
+  | "provider" => some .database
+  | "callback" => some .callback
+  | "epoch_snapshots" => some .volatileState
+  | _ => none
+
+/-- every field of `pub struct MDK` is accounted for (a new field — a cache, say — has no role and breaks this) -/
+theorem mdk_fields_all_classified : Generated.mdkFields.all (fun f => (mdkFieldRole f.1).isSome) = true := by decide
+
+/-- the ONLY state-carrying in-memory field is the snapshot manager -/
+theorem snapshot_manager_only_volatile_state :
+    Generated.mdkFields.filter (fun f => mdkFieldRole f.1 == some .volatileState) =
+      [("epoch_snapshots", "Arc<EpochSnapshotManager>")] := by decide
+
+/-- the provider is the crypto provider and the storage, the SQLite storage is its connection and nothing else -/
+theorem provider_and_storage_hold_no_cache :
+    Generated.mdkProviderFields = [("crypto", "RustCrypto"), ("storage", "Storage")] ∧
+    Generated.sqliteStorageFields = [("connection", "Arc<Mutex<Connection>>")] := by decide
+
+/-- every lock, cell, lazy value, atomic and static of the shipped source: the manager's mutex, the connection's
+    mutex, and the process-wide key-generation lock of the keyring (a `Mutex<()>`: it guards, it stores nothing) -/
+theorem no_other_interior_mutability :
+    Generated.interiorMutabilitySites =
+      [("mdk-core/src/epoch_snapshots.rs", "Mutex"),
+       ("mdk-sqlite-storage/src/keyring.rs", "Mutex"), ("mdk-sqlite-storage/src/keyring.rs", "OnceLock"),
+       ("mdk-sqlite-storage/src/keyring.rs", "static KEY_GENERATION_LOCK:OnceLock<Mutex<()>>"),
+       ("mdk-sqlite-storage/src/lib.rs", "Mutex")] := by decide
+
+/-- the manager is the queue per group plus the set of groups hydrated already; every public method that looks at
+    the queue hydrates first — so hydrating at the restart (the model) or at first use (the code) is the same -/
+theorem manager_state_and_lazy_hydration :
+    Generated.snapshotManagerFields = [("inner", "Mutex<EpochSnapshotManagerInner>"), ("retention_count", "usize")] ∧
+    Generated.snapshotManagerInnerFields =
+      [("snapshots", "HashMap<GroupId,VecDeque<EpochSnapshot>>"), ("hydrated_groups", "HashSet<GroupId>")] ∧
+    Generated.managerMethods.filter (· != "new") = Generated.managerMethodsHydrating := by decide
+
+/-- the model's `Snap` field that stands for a field of `EpochSnapshot` (`group_id`: the model has one group;
+    `created_at`: an `Instant` nothing reads, `created_at_never_read`) -/
+def snapFieldOf : String → Option String
+  | "epoch" => some "epoch"
+  | "applied_commit_id" => some "commit"
+  | "applied_commit_ts" => some "ts"
+  | "snapshot_name" => some "saved"       -- the name of the stored copy of the group state
+  | _ => none
+
+/-- a hydrated entry's field is a placeholder, not read back from the stored snapshot's name -/
+def isPlaceholder (expr : String) : Bool := expr == "0" || expr == "Instant::now()"
+
+/-- the stored name carries group id, epoch and commit id (`create_snapshot`), hydration reads exactly those back
+    (`parse_snapshot_name`) and fills the rest with placeholders -/
+theorem hydration_as_modelled :
+    Generated.snapshotNameFormat = "snap_{}_{}_{}" ∧
+    Generated.snapshotNameArgs = ["hex::encode(group_id.as_slice())", "current_epoch", "commit_id.to_hex()"] ∧
+    Generated.createdEntry =
+      [("group_id", "group_id.clone()"), ("epoch", "current_epoch"), ("applied_commit_id", "*commit_id"),
+       ("applied_commit_ts", "commit_ts"), ("created_at", "Instant::now()"), ("snapshot_name", "snapshot_name.clone()")] ∧
+    Generated.hydratedLocals =
+      [("parts", "snapshot_name.split('_').collect()"), ("epoch", "parts[2].parse().ok()?"),
+       ("commit_id", "EventId::parse(parts[3]).ok()?")] ∧
+    Generated.hydratedEntry =
+      [("group_id", "group_id.clone()"), ("epoch", "epoch"), ("applied_commit_id", "commit_id"),
+       ("applied_commit_ts", "0"), ("created_at", "Instant::now()"), ("snapshot_name", "snapshot_name.to_string()")] ∧
+    Generated.hydratedEntry.map (·.1) = Generated.epochSnapshotFields.map (·.1) := by decide
+
+theorem created_at_never_read : Generated.epochSnapshotCreatedAtReads = 0 := by decide
+
+/-- **the model's `restart` erases exactly the field hydration cannot recover**: of the fields of `EpochSnapshot`
+    the model tracks, the placeholders of a hydrated entry are `applied_commit_ts` ↦ `ts` and nothing else … -/
+theorem hydration_loses_exactly_ts :
+    (Generated.hydratedEntry.filter (fun f => isPlaceholder f.2)).filterMap (fun f => snapFieldOf f.1) = ["ts"] ∧
+    (Generated.hydratedEntry.filter (fun f => !isPlaceholder f.2)).filterMap (fun f => snapFieldOf f.1) = ["epoch", "commit", "saved"] ∧
+    Generated.hydratedEntry.lookup "applied_commit_ts" = some "0" := by decide
+
+/-- … and that is what `restart` does to a persistent client: every entry keeps epoch, commit and saved state, in
+    order; every timestamp becomes 0; nothing else of the client changes (`restart_only_forgets_timestamps`) -/
+theorem restart_erases_exactly_ts (c : Cl) (hp : c.persistent = true) :
+    (restart c).1.mgr.map (fun s => (s.epoch, s.commit, s.saved)) = c.mgr.map (fun s => (s.epoch, s.commit, s.saved)) ∧
+    (∀ s ∈ (restart c).1.mgr, s.ts = 0) ∧ (restart c).1 = { c with mgr := (restart c).1.mgr } := by
+  unfold restart
+  simp only [hp, if_true, List.map_map, List.mem_map]
+  refine ⟨rfl, ?_, trivial⟩
+  rintro s ⟨t, _, rfl⟩; rfl
 
 end MdkVerif.Props.C11
